@@ -266,6 +266,8 @@ def fresh_like(v, name, st: State):
         return v
     if type(v).__name__ == "Disk":
         return type(v)()
+    if isinstance(v, list) and all(isinstance(x, tuple) and len(x) == 2 for x in v):
+        return [("*", nm)]      # the store log of a foreign objects' field (heap["$opq"]): any object may have been hit
     raise Unsupported(f"cannot havoc value of kind {type(v).__name__}")
 
 
